@@ -48,7 +48,9 @@ pub fn run_line(line: &str) -> String {
 		"crc" => crc::run(line),
 		"api" => Ok(api::run_history(line)),
 		"rt" => ser::run_rt(line),
+		"genfail" => Ok("GENERATOR-WRITE-FAILED".into()),
 		"chain" => schema::run_chain(line),
+		"diamond" => schema::run_diamond(line),
 		"single" => ser::run_single(line),
 		"schema" => schema::run(line),
 		"graph" => schema::run_graph(line),
